@@ -238,6 +238,8 @@ void IniFile::write(const String& fname)
 		String line;
 		foreach2(String& name, String& value, section)
 		{
+			if (!value.ok()) // a name that was only read (operator[] creates it) or has no value is not added to the file
+				continue;
 			line.clear();
 			line << _indent << name << "=" << value;
 			_lines.insert(j++, line);
